@@ -110,6 +110,28 @@ func acyclic(f *ssa.Function) bool {
 	return dfs(f.Blocks[0])
 }
 
+// producesLiteralByLoop: a function that returns the token's text (a string) and is itself free of loops only because
+// its loops were moved into private helpers that return nothing (`skipDigits()`): it is still the scanner of its
+// lexeme, and is summarised like one instead of being entered.
+func producesLiteralByLoop(f *ssa.Function) bool {
+	if f == nil || f.Blocks == nil || f.Signature.Results().Len() == 0 {
+		return false
+	}
+	if b, ok := f.Signature.Results().At(0).Type().Underlying().(*types.Basic); !ok || b.Info()&types.IsString == 0 {
+		return false
+	}
+	found := false
+	allInstrs(f, func(_ *ssa.BasicBlock, _ int, in ssa.Instruction) {
+		if call, ok := in.(*ssa.Call); ok {
+			g := call.Call.StaticCallee()
+			if g != nil && g.Pkg == f.Pkg && g.Blocks != nil && g.Signature.Results().Len() == 0 && !acyclic(g) {
+				found = true
+			}
+		}
+	})
+	return found
+}
+
 func (w *lexWalker) ev(fr *lexFrame, v ssa.Value) *aval {
 	if v == nil {
 		return nil
@@ -530,7 +552,7 @@ func (w *lexWalker) call(fr *lexFrame, b *ssa.BasicBlock, i int, x *ssa.Call, p 
 	}
 	// a function of the lexer package
 	returnsToken := cal.Signature.Results().Len() == 1 && namedIs(cal.Signature.Results().At(0).Type(), "token", "Token")
-	if (acyclic(cal) || returnsToken) && fr.depth < 4 {
+	if ((acyclic(cal) && !producesLiteralByLoop(cal)) || returnsToken) && fr.depth < 4 {
 		params := map[*ssa.Parameter]bset{}
 		env := map[ssa.Value]*aval{}
 		for pi, par := range cal.Params {
